@@ -135,7 +135,8 @@ def build(cfg, force=False, verbose=False):
             "RUSTC_BOOTSTRAP": "1",
         })
         env.pop("RUSTUP_TOOLCHAIN", None)
-        cmd = ["cargo", "+1.80.0"] + cargo_args[:1] + ["--offline", "--locked"] + cargo_args[1:]
+        # the corpus crate starts from a copy of /repo's lock file and adds itself to it (still offline)
+        cmd = ["cargo", "+1.80.0"] + cargo_args[:1] + ["--offline"] + ([] if cfg == "X" else ["--locked"]) + cargo_args[1:]
         t0 = time.time()
         r = subprocess.run(cmd, cwd=cwd, env=env, capture_output=True, text=True)
         info["build_s"] = round(time.time() - t0, 2)
